@@ -36,6 +36,10 @@ META = dict(
          "further family: run_receiver_task cancelled by the application that embeds it while sync functions (with durations) wait in a "
          "pool of 1..3 threads (recv_props.gen_live_cancel): a message acknowledged under when_executed / when_saved must have entered its function, un-run un-acknowledged messages are not claimed; "
          "part of the command-line scenarios is run by the real start_listen on the loop it creates; "
+         "the event loop's task factory is None unless the application (~6 percent of the scenarios: a plain / Task-subclass factory of "
+         "its own) or the code under test sets one - whatever is set on the running loop takes effect (the harness tags tasks apart "
+         "from it); further family (recv_props.gen_relisten): ONE Receiver object listens again after listen() failed while every slot "
+         "was busy (callbacks of the earlier session still running); "
          "non-trivial iff >= 2 valid messages and (a stop instant, or N, or a malformed / unknown message, "
          "or a backlog > A+P+1); distinct by canonical scenario",
     trusted_base=["model: coq/theories/RecvLTS.v; defective variant coq/findings/FindingsRecv.v",
